@@ -219,6 +219,14 @@ class Interval(Duration, Generic[_T]):
         return self._delta.minutes
 
     @property
+    def remaining_seconds(self) -> int:
+        return self._delta.seconds
+
+    @property
+    def microseconds(self) -> int:
+        return self._delta.microseconds
+
+    @property
     def start(self) -> _T:
         return self._start
 
